@@ -5,6 +5,7 @@ package c08
 import (
 	"encoding/json"
 	"fmt"
+	"github.com/DrmagicE/gmqtt"
 	"math/rand"
 	"time"
 
@@ -377,8 +378,60 @@ func allCases(rng *rand.Rand, quick bool) []Case {
 	return out
 }
 
+// emptyRetainedWill: a will is published like any other message: with RETAIN = 1 and a zero-length payload it
+// clears the retained message of its topic.
+func emptyRetainedWill(r *monitor.Run, v byte) {
+	b, err := broker.Start(broker.Options{})
+	if err != nil {
+		r.Inconclusive(err.Error())
+		return
+	}
+	defer b.Stop(step)
+	topic := fmt.Sprintf("will/empty/v%d", v)
+	b.Srv.RetainedService().AddOrReplace(&gmqtt.Message{Topic: topic, Payload: []byte("stale-status"), QoS: 1, Retained: true})
+	if b.Srv.RetainedService().GetRetainedMessage(topic) == nil {
+		r.Inconclusive("retained message could not be stored")
+		return
+	}
+	o, err := wire.Dial("obs", b.Addr, mqttx.V5)
+	if err != nil {
+		r.Inconclusive(err.Error())
+		return
+	}
+	defer o.Close()
+	_, _ = o.Connect(&mqttx.Packet{ClientID: "observer", CleanStart: true}, step)
+	if _, err := o.Subscribe([]mqttx.Sub{{Filter: "will/#", QoS: 1, RAP: true, RetainHandling: 2}}, 0, step); err != nil {
+		r.Inconclusive(err.Error())
+		return
+	}
+	w, err := wire.Dial("w", b.Addr, mqttx.Version(v))
+	if err != nil {
+		r.Inconclusive(err.Error())
+		return
+	}
+	if ack, err := w.Connect(&mqttx.Packet{ClientID: "w-empty", CleanStart: true, WillFlag: true, WillTopic: topic, WillPayload: []byte{}, WillQoS: 1, WillRetain: true}, step); err != nil || ack.Code != 0 {
+		r.Inconclusive(fmt.Sprintf("connect: %v %v", ack, err))
+		return
+	}
+	w.Close()
+	r.Eval(1)
+	r.Count("empty_retained_wills", 1)
+	if _, err := o.WaitPublish(0, func(p *mqttx.Packet) bool { return p.Topic == topic && len(p.Payload) == 0 }, step); err != nil {
+		r.Violation(fmt.Sprintf("will.not_published:empty_payload:v=%d", v), "a will with a zero-length payload was not published after the socket was closed", nil)
+		return
+	}
+	if m := b.Srv.RetainedService().GetRetainedMessage(topic); m != nil {
+		r.Violation(fmt.Sprintf("will.empty_retained_not_cleared:v=%d", v), fmt.Sprintf("a retained will with a zero-length payload left the retained message %q of its topic in place", m.Payload), nil)
+		return
+	}
+	r.Nontrivial(fmt.Sprintf("empty-retained-will|%d", v))
+}
+
 // Run is the entry point.
 func Run(r *monitor.Run) {
+	for _, v := range []byte{4, 5} {
+		emptyRetainedWill(r, v)
+	}
 	cs := allCases(r.Rand("cases"), r.Quick())
 	r.Parallel(len(cs), 32, func(i int) {
 		c := cs[i]
